@@ -6,6 +6,7 @@ import TexcraftModel.Model.C16
 * `rt <ops>`     → `<wf> | <ser bytes> | <deserialize (ser bytes)>`
 * `de <bytes>`   → `<deserialize bytes>`
 * `vr <ops>`     → `<varRemove ops>`
+* `nz <bytes>`    → `ok <bytes dvitools normalize must write>` | `err`
 * `chk <ops-in> <ops-out>` → spec verdict on a claimed var-removal: `pos=<0/1> novars=<0/1> others=<0/1>`
 
 Ops are integer-encoded (see `encOp`); an op list is its length followed by the ops. -/
@@ -137,6 +138,15 @@ def handle (line : String) : String :=
         s!"pos={b2i pos} novars={b2i novars} others={b2i others}"
       | _ => "bad-request"
     | _ => "bad-request"
+  | "nz" :: ws =>
+    -- what `dvitools normalize` must write: deserialise, remove the variables, serialise
+    match nats? ws with
+    | some bytes =>
+      let r := deserialize bytes
+      match r.2 with
+      | none => s!"ok {showNats (serAll (varRemove r.1))}"
+      | some _ => "err"
+    | none => "bad-request"
   | "pos" :: ws =>
     match ints? ws >>= decOps with
     | some (ops, []) => showInts ((positions ops).map encMark).flatten
